@@ -11,7 +11,7 @@ names=${@:-$(ls seeded | grep -E '^C[0-9]+')}
 for n in $names; do
   d=seeded/$n; [ -f $d/patch.diff ] || continue
   prop=${n:0:3}
-  git -C $W checkout -q -- . ; git -C $W apply /verif/$d/patch.diff || { echo "$n does-not-apply"; continue; }
+  git -C $W checkout -q -- . ; git -C $W clean -fdq ; git -C $W apply /verif/$d/patch.diff || { echo "$n does-not-apply"; continue; }
   out=$(VERIF_REPO=$W VERIF_WORKDIR=$WD VERIF_EVIDENCE_DIR=$WD/evidence VERIF_SEED=${VERIF_SEED:-1} ./check $prop 2>&1)
   rc=$?
   keys=$(echo "$out" | grep -o "violation key=[^ ]*" | sort -u | cut -d= -f2 | head -4 | tr '\n' ' ')
